@@ -156,8 +156,11 @@ func applyFilters(provider *types.PeerRecord, filterAddrs, filterProtocols []str
 		return nil
 	}
 
-	provider.Addrs = filteredAddrs
-	return provider
+	// Return a copy: the record belongs to the caller (e.g. the delegate
+	// router behind the HTTP server, which may hand out the same record again).
+	filtered := *provider
+	filtered.Addrs = filteredAddrs
+	return &filtered
 }
 
 // applyAddrFilter filters a list of multiaddresses based on the provided filter query.
